@@ -505,6 +505,28 @@ Definition dead_ownerb (s : state) (o : option owner) : bool :=
   | _ => false
   end.
 
+(* --------------------------------------------- checkers on handler tables *)
+(* execute(): UnicodeDecodeError is re-raised BEFORE the catch-all, the
+   catch-all and every other handler raise FileSearchException; only class
+   names whose relation to UnicodeDecodeError is known are accepted *)
+Fixpoint exec_table_ok (seen_ude : bool) (hs : list (string * string)) : bool :=
+  match hs with
+  | [] => false
+  | (h, r) :: rest =>
+      if String.eqb h "Exception" then seen_ude && String.eqb r E_FSE
+      else if String.eqb h E_UDE
+           then String.eqb r "reraise" && exec_table_ok true rest
+           else String.eqb h "EOFError" && String.eqb r E_FSE
+                && exec_table_ok seen_ude rest
+  end.
+
+(* _run_mp: exactly one handler, BrokenProcessPool -> FileSearchException *)
+Definition pool_table_ok (hs : list (string * string)) : bool :=
+  match hs with
+  | [(h, r)] => String.eqb h E_BPP && String.eqb r E_FSE
+  | _ => false
+  end.
+
 (* ------------------------------------------------ facts from the skeletons *)
 (* handler bodies here are straight-line: the class raised by a handler is
    the first RaiseE before the next structural event; "swallow" if none *)
